@@ -251,8 +251,24 @@ impl Typer {
             for constraint in constraints.drain(..) {
                 match constraint {
                     Constraint::TypeEqual(l, r) => {
+                        #[cfg(goml_verif)]
+                        if crate::verif_hooks::enabled() {
+                            let (vl, vr) = (self.norm(&l), self.norm(&r));
+                            crate::verif_hooks::emit(
+                                || serde_json::json!({"ev": "unify_call", "l": vl, "r": vr}),
+                            );
+                        }
                         if self.unify(diagnostics, &l, &r) {
+                            #[cfg(goml_verif)]
+                            crate::verif_hooks::emit(|| serde_json::json!({"ev": "unify_ok"}));
                             changed = true;
+                        }
+                        #[cfg(goml_verif)]
+                        if crate::verif_hooks::enabled() {
+                            let (vl, vr) = (self.norm(&l), self.norm(&r));
+                            crate::verif_hooks::emit(
+                                || serde_json::json!({"ev": "unify_ret", "l": vl, "r": vr}),
+                            );
                         }
                     }
                     Constraint::Overloaded {
@@ -392,6 +408,13 @@ impl Typer {
                                 &field,
                             ) && self.unify(diagnostics, &result_ty, &field_ty)
                             {
+                                #[cfg(goml_verif)]
+                                if crate::verif_hooks::enabled() {
+                                    let (vl, vr) = (self.norm(&result_ty), self.norm(&field_ty));
+                                    crate::verif_hooks::emit(
+                                        || serde_json::json!({"ev": "unify_field_ok", "l": vl, "r": vr}),
+                                    );
+                                }
                                 changed = true;
                             }
                         } else {
